@@ -232,6 +232,11 @@ type verifConn struct{ reads int }
 
 func (c *verifConn) Read(p []byte) (int, error) { panic("verifConn is read through the abstract IPC reader only") }
 
+// verifQueuedConn: a connection with an input queue of its own.
+type verifQueuedConn interface {
+	verifNextStream() (*verifInStream, bool)
+}
+
 // verifSink is the connection's write side.
 type verifSink struct{ n int }
 
@@ -289,6 +294,22 @@ func verifIpcNewReader(r io.Reader, opts ...ipc.Option) (*ipc.Reader, error) {
 			verifReaderSt = append(verifReaderSt, st)
 			return rd, nil
 		}
+	}
+	// a connection that carries its own input (several connections served side by side, C42)
+	if qc, ok := r.(verifQueuedConn); ok {
+		st, more := qc.verifNextStream()
+		if !more {
+			return nil, io.EOF
+		}
+		st.opened = true
+		if st.bad {
+			st.atEOS = true
+			return nil, errors.New("arrow/ipc: could not read message schema")
+		}
+		rd := &ipc.Reader{}
+		verifReaders = append(verifReaders, rd)
+		verifReaderSt = append(verifReaderSt, st)
+		return rd, nil
 	}
 	if verifInNext > 0 {
 		prev := verifInQueue[verifInNext-1]
